@@ -75,7 +75,7 @@ CHECKS["C02"] = dict(
                   _px("s3-catalogue", "--space", "s3", "--content", 0),
                   _px("s11-xml11-k3", "--space", "s11", "--k", 3),
                   _px("s4-dtd-rich-k2", "--space", "s4", "--k", 2, "--content", 0),
-                  _px("prefixes", "--space", "prefix", "--rootattrs", 4, "--content", 0)],
+                  _px("prefixes", "--space", "prefix", "--rootattrs", 5, "--content", 0)],
     ),
     manifest=dict(technique="bounded-exhaustive enumeration of token words / catalogue / byte prefixes, verdict differential against expat and by-construction labels"),
 )
@@ -104,7 +104,7 @@ CHECKS["C03"] = dict(
         thorough=[_px("s1-words-k3", "--space", "s1", "--k", 3),
                   _px("s3-catalogue", "--space", "s3"),
                   _px("s11-xml11-k3", "--space", "s11", "--k", 3),
-                  _px("s4-dtd-rich-k2", "--space", "s4", "--k", 2, "--rootattrs", 4),
+                  _px("s4-dtd-rich-k2", "--space", "s4", "--k", 2, "--rootattrs", 5),
                   _px("s4-dtd-rich-k3", "--space", "s4", "--k", 3, "--rootattrs", 1, "--apis", 6),
                   dict(name="ladder-buffer-boundaries", driver="chunkx", args=["--space", "slide", "--slide", 8, "--max-viol", 400])],
     ),
